@@ -286,9 +286,48 @@ def big_ts(rng):
     return v
 
 
+def probed_history(rng, n):
+    """ mutations over a tiny universe, each followed by interpolation queries in every gap for every device: whatever an
+    implementation caches between two queries is confronted with every single-step change of the content """
+    step = rng.choice([2, 10, 1000])
+    tss = [i * step for i in range(rng.choice([3, 4, 5]))]
+    devs = ['cam%d' % i for i in range(rng.choice([2, 3]))]
+    big = rng.choice([10 ** 19, step * len(tss), step])
+    ops = []
+    pid = itertools.count(1)
+    # start from a well-filled container so that deletions bite
+    for t in tss:
+        for d in devs:
+            if rng.random() < 0.8:
+                ops.append(['setPair', t, d, next(pid)])
+    while len(ops) < n:
+        for t in tss[:-1]:
+            for d in devs:
+                if rng.random() < 0.7:
+                    ops.append(['interp', t + step // 2, d, big])
+        x = rng.random()
+        t, d = rng.choice(tss), rng.choice(devs)
+        if x < 0.35:
+            ops.append(['setPair', t, d, next(pid)])
+        elif x < 0.45:
+            ops.append(['setTs', t, [[dd, next(pid)] for dd in devs if rng.random() < 0.5]])
+        elif x < 0.9:
+            ops.append(['delPair', t, d])
+        else:
+            ops.append(['delTs', t])
+    return ops
+
+
 def random_history(rng, n, kind):
-    style = rng.choice(['dense', 'epoch', 'mixed', 'negative', 'long'])
-    if style == 'dense':
+    if kind == 'traj' and rng.random() < 0.3:
+        return probed_history(rng, n)
+    style = rng.choice(['dense', 'epoch', 'mixed', 'negative', 'long', 'tight', 'tight'])
+    if style == 'tight':
+        # few timestamps shared by few devices, queries interleaved with single-pair deletions: every cache an
+        # implementation might keep per timestamp / per device gets invalidated while still partly populated
+        step = rng.choice([1, 10, 1000])
+        tss = [i * step for i in range(rng.choice([3, 4, 6]))]
+    elif style == 'dense':
         tss = list(range(0, 40))
     elif style == 'epoch':
         base = 10 ** rng.choice([9, 12, 15, 18])
@@ -300,11 +339,14 @@ def random_history(rng, n, kind):
         tss = [base + i * 7 for i in range(14)] + [99999999999999999, 999999999999999999]
     else:
         tss = [rng.randrange(-10 ** 6, 10 ** 6) for _ in range(12)]
-    devs = ['cam%d' % i for i in range(rng.choice([1, 2, 4]))]
+    devs = ['cam%d' % i for i in range(rng.choice([2, 3]) if style == 'tight' else rng.choice([1, 2, 4]))]
     ops = []
     pid = itertools.count(1)
     for _ in range(n):
         x = rng.random()
+        if style == 'tight':
+            # remap: 40% set, 25% delete pair, 5% delete timestamp, 30% interpolation queries
+            x = rng.choice([0.1] * 8 + [0.5] * 5 + [0.57] + [0.9] * 6)
         t = rng.choice(tss)
         d = rng.choice(devs)
         if x < 0.35:
